@@ -324,6 +324,31 @@ impl Prop for C12 {
                     }
                 };
                 let refl_rot = word.iter().any(|l| l.reflect);
+                // "identically to composing the library's own elementary reflect, rotate and translate transforms in that order": the placement
+                // matrix equals translate . rotate . reflect entry for entry (the products involved only multiply by 0 and 1, so there is no
+                // rounding to forgive; -0.0 == 0.0)
+                for l in &word {
+                    cx.eval();
+                    let r = guard(|| {
+                        let placed = Transform::from_instance(&pt(l.loc), l.reflect, l.angle);
+                        let mut inner = Transform::rotate(l.angle.unwrap());
+                        if l.reflect {
+                            inner = Transform::cascade(&inner, &Transform::reflect_vert());
+                        }
+                        let composed = Transform::cascade(&Transform::translate(l.loc.0 as f64, l.loc.1 as f64), &inner);
+                        (placed.a, placed.b, composed.a, composed.b)
+                    });
+                    match r {
+                        Err(c) => cx.violation(&format!("general|panic|{}", c.norm_msg()), json!({"panic": c.msg})),
+                        Ok((pa, pb, ca, cb)) => {
+                            if pa != ca || pb != cb {
+                                cx.violation(&format!("general|placement-differs-from-composition|{}", if l.reflect { "reflected" } else { "unreflected" }), json!({"angle": l.angle, "loc": l.loc, "placement": [pa[0], pa[1], pb], "composition": [ca[0], ca[1], cb]}));
+                            } else {
+                                cx.count("general_placement_equals_composition");
+                            }
+                        }
+                    }
+                }
                 for _ in 0..8 {
                     cx.eval();
                     let p = (cx.rng.range(-big, big), cx.rng.range(-big, big));
@@ -347,6 +372,82 @@ impl Prop for C12 {
                         break;
                     }
                     cx.count("general_points_agree");
+                }
+                // ... and through Layout::flatten of the nested hierarchy: one polygon and one path in the leaf; every flattened vertex is the
+                // image of ITS source vertex (same position in the list) under the composition, rounded once at the end (so within half a unit
+                // of the real-number image, not half a unit per level), and the path keeps its width (placements are isometries)
+                let pts: Vec<P> = (0..6).map(|_| (cx.rng.range(-big, big), cx.rng.range(-big, big))).collect();
+                let width = 2 * (1 + cx.rng.usize(40));
+                let mk = |s: Shape| Element { net: None, layer: LayerKey::default(), purpose: LayerPurpose::Drawing, inner: s };
+                let mut cur = Layout {
+                    name: "leaf".into(),
+                    insts: vec![],
+                    elems: vec![mk(Shape::Polygon(Polygon { points: pts.iter().map(|p| pt(*p)).collect() })), mk(Shape::Path(Path { points: pts[..3].iter().map(|p| pt(*p)).collect(), width }))],
+                    annotations: vec![],
+                };
+                for (i, l) in word.iter().enumerate().rev() {
+                    let cell: Ptr<Cell> = Ptr::new(Cell::from(cur));
+                    cur = Layout { name: format!("level{}", i), insts: vec![Instance { inst_name: format!("i{}", i), cell, loc: pt(l.loc), reflect_vert: l.reflect, angle: l.angle }], elems: vec![], annotations: vec![] };
+                }
+                cx.eval();
+                match guard(|| cur.flatten()) {
+                    Err(c) => cx.violation(&format!("general-flatten|panic|{}", c.norm_msg()), json!({"panic": c.msg, "word": describe(&word)})),
+                    Ok(Err(e)) => cx.violation("general-flatten|error", json!({"error": format!("{:?}", e).chars().take(200).collect::<String>(), "word": describe(&word)})),
+                    Ok(Ok(elems)) => {
+                        let image = |p: P| -> (f64, f64) {
+                            let (mut x, mut y) = (p.0 as f64, p.1 as f64);
+                            for l in word.iter().rev() {
+                                if l.reflect {
+                                    y = -y;
+                                }
+                                let (s, c) = sincos_deg(l.angle.unwrap());
+                                let (nx, ny) = (c * x - s * y, s * x + c * y);
+                                x = nx + l.loc.0 as f64;
+                                y = ny + l.loc.1 as f64;
+                            }
+                            (x, y)
+                        };
+                        // f64 carries ~1e-16 relative error per operation: allow for it at 2^30-sized coordinates
+                        let tol = 0.5 + 1e-5 + (big as f64) * 4e-15 * depth as f64;
+                        let mut bad: Option<String> = None;
+                        if elems.len() != 2 {
+                            bad = Some("element-count".into());
+                        }
+                        for e in elems.iter() {
+                            let (got, src, w): (Vec<P>, &[P], Option<usize>) = match &e.inner {
+                                Shape::Polygon(g) => (g.points.iter().map(tp).collect(), &pts[..], None),
+                                Shape::Path(g) => (g.points.iter().map(tp).collect(), &pts[..3], Some(g.width)),
+                                Shape::Rect(_) => {
+                                    bad = Some("shape-kind-changed".into());
+                                    continue;
+                                }
+                            };
+                            if got.len() != src.len() {
+                                bad = Some("vertex-count".into());
+                                continue;
+                            }
+                            for (g, sp) in got.iter().zip(src.iter()) {
+                                let (x, y) = image(*sp);
+                                if (g.0 as f64 - x).abs() > tol || (g.1 as f64 - y).abs() > tol {
+                                    // is it the image of ANOTHER vertex of the list? then the order changed
+                                    let other = src.iter().any(|q| {
+                                        let (x2, y2) = image(*q);
+                                        (g.0 as f64 - x2).abs() <= tol && (g.1 as f64 - y2).abs() <= tol
+                                    });
+                                    bad = Some(if other { "vertex-order-changed".into() } else { "vertex-off-by-more-than-half-unit".into() });
+                                }
+                            }
+                            if let Some(w) = w {
+                                if w != width {
+                                    bad = Some("path-width-changed".into());
+                                }
+                            }
+                        }
+                        match bad {
+                            Some(b) => cx.violation(&format!("general-flatten|{}|{}", b, if refl_rot { "reflected" } else { "unreflected" }), json!({"word": describe(&word), "points": pts, "width": width, "flattened": format!("{:?}", elems.iter().map(|e| &e.inner).collect::<Vec<_>>()).chars().take(600).collect::<String>()})),
+                            None => cx.count("general_flattened_hierarchies_agree"),
+                        }
+                    }
                 }
                 cx.sample(|| describe(&word));
             }
